@@ -104,11 +104,30 @@ class Contract:
         """self.real(fn, *args, **kwargs): run real code; its exceptions are outcomes, exceptions
         elsewhere in the harness are crashes"""
         _self, fn, *args = a
+        from . import modstate
+        from .sym import engine as _engine
+
+        ms = [modstate.mark()]
+        try:
+            return Contract._real(ms, fn, args, kwargs)
+        finally:
+            # frame condition on module-level state of the code under verification, around THIS call of real code
+            # (also when it raised): see vt/modstate.py
+            if ms[0] is not None:
+                try:
+                    _engine().extra.setdefault("frame_always", []).extend(modstate.check(ms[0]))
+                except Exception:
+                    pass
+
+    @staticmethod
+    def _real(ms, fn, args, kwargs):
         try:
             return fn(*args, **kwargs)
         except EngineLimit:
+            ms[0] = None  # the run left the verifier's reach: nothing is claimed about it
             raise
         except RecursionError:
+            ms[0] = None
             raise EngineLimit("recursion limit")
         except Exception as e:
             # an undocumented exception raised from inside the checker's own code is a checker bug
@@ -123,8 +142,10 @@ class Contract:
                 # a JAX function that is not part of the dependency model (everything but jax.tree_util, which runs for
                 # real) was handed a proxy value and failed on it: a limit of the model (undecided), not an outcome of
                 # the code under verification
+                ms[0] = None
                 raise EngineLimit("unmodelled JAX function raised on a proxy value: %s" % (str(e)[:200],))
             if in_checker and not getattr(e, "__vt_documented__", False):
+                ms[0] = None
                 raise
             raise RealRaise(e)
 
@@ -546,6 +567,10 @@ def run_contract(cls, tier="quick", cross=False, no_replay=()):
                     by_clause.setdefault(name, []).append((p, f))
                 if cls.kind != "canary" and p.outcome == "return":
                     for name, f in p.extra.get("frame", []):
+                        by_clause.setdefault(name, []).append((p, f))
+                if cls.kind != "canary":
+                    # module-level state: also on paths where the real code RAISED (a flag left set by a failed call)
+                    for name, f in p.extra.get("frame_always", []):
                         by_clause.setdefault(name, []).append((p, f))
             except EngineLimit as e:
                 err = "engine limit in ensures: %s" % e
